@@ -1882,6 +1882,13 @@ func (n *TxNotifier) DisconnectTip(blockHeight uint32) error {
 	// those that have confirmed/spent at previous heights.
 	n.updateHints(blockHeight)
 
+	// Requests whose historical rescan is still pending are skipped by
+	// updateHints, since we can't raise their hints yet. A hint that lies
+	// above the new tip must still be lowered though, otherwise a rescan
+	// from it after a restart could miss a confirmation/spend that lands
+	// in the reorged range.
+	n.lowerPendingHints()
+
 	// We'll go through all of our watched confirmation requests and attempt
 	// to drain their notification channels to ensure sending notifications
 	// to the clients is always non-blocking.
@@ -2001,6 +2008,46 @@ func (n *TxNotifier) updateHints(height uint32) {
 		// so we'll avoid returning an error.
 		Log.Debugf("Unable to update spend hints to %d for "+
 			"%v: %v", n.currentHeight, spendRequests, err)
+	}
+}
+
+// lowerPendingHints lowers the cached height hints of all requests with a
+// pending historical rescan to the current height if they exceed it.
+//
+// NOTE: This must be called with the TxNotifier's lock held.
+func (n *TxNotifier) lowerPendingHints() {
+	for confRequest, confSet := range n.confNotifications {
+		if confSet.rescanStatus != rescanPending {
+			continue
+		}
+		hint, err := n.confirmHintCache.QueryConfirmHint(confRequest)
+		if err != nil || hint <= n.currentHeight {
+			continue
+		}
+		err = n.confirmHintCache.CommitConfirmHint(
+			n.currentHeight, confRequest,
+		)
+		if err != nil {
+			Log.Debugf("Unable to lower confirm hint to %d for "+
+				"%v: %v", n.currentHeight, confRequest, err)
+		}
+	}
+
+	for spendRequest, spendSet := range n.spendNotifications {
+		if spendSet.rescanStatus != rescanPending {
+			continue
+		}
+		hint, err := n.spendHintCache.QuerySpendHint(spendRequest)
+		if err != nil || hint <= n.currentHeight {
+			continue
+		}
+		err = n.spendHintCache.CommitSpendHint(
+			n.currentHeight, spendRequest,
+		)
+		if err != nil {
+			Log.Debugf("Unable to lower spend hint to %d for %v: "+
+				"%v", n.currentHeight, spendRequest, err)
+		}
 	}
 }
 
